@@ -1,24 +1,101 @@
 /-
-C03 — rejection reports the first offending token (viable-prefix core).
+C03 — rejection reports the first offending token, or None at end of input.
 
-`C03_viable`: for an automaton whose item cores lie in the inductive closure of
-their kernels (`CoreSound`), every item `[A → α·β]` in the top state is
-LR(0)-valid for the symbols spelled by the stack: the stack spells `δα` and
-`S ⇒* δ A ζ`.  Hence a shift is only ever performed on a viable prefix — the
-"no shift past a dead prefix" half of the property.  (The converse half and the
-productivity step are `…_partial`, see DESIGN.md §7.)
+The emitted `parse` is `LR.runCfg` over the emitted tables.  `Err(Some(t))` is the final result `.err` in a
+configuration whose rest starts with `t`; `Err(None)` is `.err` with an empty rest (the driver peeks one
+token; the rest of a configuration is exactly what has not been pulled from the iterator, so "pulls nothing
+beyond the reported token" is the fact that the run up to the error does not depend on what follows `t`:
+`C03_lookahead_only`).
+
+* `C03_viable` (every automaton with `CoreSound`): every item of the top state is LR(0)-valid for the symbols
+  spelled by the stack — a shift is only ever performed on a viable prefix.
+* `C03_not_early` (every automaton with `Complete`): when the run stops with an error on lookahead `a` after
+  consuming `pre`, no sentence starts with `pre ++ [a]`.
+* `C03_first_offending` (every grammar and automaton accepted by the three executable validators
+  `validB`, `tightB`, `productiveB`; every token sequence, any payload type): the complete statement —
+  the consumed tokens extend to a sentence, the reported token is the first that cannot, `Err(None)` only
+  for a proper prefix of a sentence.
+The validators are run (compiled) on the machine and table the implementation built, for every generated
+grammar of the correspondence run, and by the kernel on the tables of `parser.rs` (`C03_front_end`).
+For grammars with unproductive nonterminals (`productiveB = false`) the statement is about the canonical
+LR(1) parser; that case is compared against an independent canonical-LR(1) driver (tools/oracle.py) — no
+theorem (`…_partial`, DESIGN.md §7).
 -/
 import KikiVerif.LR.Via
+import KikiVerif.LR.Early
+import KikiVerif.LR.Extend
+import KikiVerif.Proofs.Run
+import KikiVerif.Proofs.Tight
+import KikiVerif.Properties.C09
 
 namespace KikiVerif.C03
 open KikiVerif.LR
 
-variable {T N : Type}
+variable {T N P : Type}
 
 theorem C03_viable {g : Grammar T N} {A : Auto T N} (hcs : CoreSound g A) :
     ∀ ss γ, StkS A ss γ → ∀ top tl, ss = top :: tl → ∀ r d a, A.items top ⟨r, d, a⟩ → Viable g γ r d :=
   viable hcs
 
+/-- the error is never reported early -/
+theorem C03_not_early {g : Grammar T N} {A : Auto T N} (hc : Complete (P := P) g A)
+    {pre : List (Tok T P)} {a : Tok T P} {r : List (Tok T P)} {c : Cfg T P}
+    (hrun : Steps g A ⟨[A.start], [], pre ++ a :: r⟩ c) (hrest : c.rest = a :: r) (herr : step g A c = .err)
+    (r' : List (Tok T P)) (t : Tree T P) (hwf : WF g t (.n g.start)) : t.yield ≠ pre ++ a :: r' :=
+  no_early_error hc hrun hrest herr r' t hwf
+
+/-- nothing after the lookahead influences the run: replacing what follows `a` by anything else gives the same
+states and nodes (the emitted `parse` has pulled exactly `pre ++ [a]` from the iterator at that point) -/
+theorem C03_lookahead_only {g : Grammar T N} {A : Auto T N} {a : Tok T P} {r r' : List (Tok T P)}
+    {c0 c : Cfg T P} (h : Steps g A c0 c) (q q2 : List (Tok T P)) (h0 : c0.rest = q ++ a :: r)
+    (h1 : c.rest = q2 ++ a :: r) :
+    Steps g A ⟨c0.states, c0.nodes, q ++ a :: r'⟩ ⟨c.states, c.nodes, q2 ++ a :: r'⟩ :=
+  steps_replace h q q2 h0 h1
+
+open KikiVerif.Valid in
+/-- **C03 for a validated automaton of a productive grammar**, every token sequence `w`, every payload type:
+if the loop of the emitted `parse` ends with an error in configuration `cf`, then with `pre` the consumed
+tokens (`w = pre ++ cf.rest`):
+1. `pre` is a prefix of some sentence (hence so is every shorter prefix `w[0..=j]`, `j <` the reported index);
+2. if a lookahead token `a` is left (`Err(Some(a))`), no sentence starts with `pre ++ [a]` — `a`, at index
+   `pre.length`, is the first offending token;
+3. if the input is exhausted (`Err(None)`), `w` is not a sentence (and by 1 a proper prefix of one). -/
+theorem C03_first_offending {P : Type} [Inhabited P] {g : Grammar Nat Nat} {nN : Nat} {C : Cert}
+    (hv : validB g nN C = true) (ht : tightB g nN C = true) (hp : productiveB g = true)
+    (w : List (Tok Nat P)) (fuel : Nat) (cf : Cfg Nat P)
+    (hrun : runCfg g (mkAuto C) fuel ⟨[(mkAuto C).start], [], w⟩ = some (.err, cf)) :
+    ∃ pre, w = pre ++ cf.rest ∧
+      (∃ suf t, WF g t (.n g.start) ∧ t.yield = pre ++ suf) ∧
+      (∀ a r, cf.rest = a :: r → ∀ r' t, WF g t (.n g.start) → t.yield ≠ pre ++ a :: r') ∧
+      (cf.rest = [] → ∀ t, WF g t (.n g.start) → t.yield ≠ w) := by
+  obtain ⟨hsteps, herr⟩ := steps_of_runCfg fuel _ _ _ hrun
+  exact valid_tight_first_offending hv ht hp hsteps herr
+
+/-! ### the hypotheses are satisfiable: Kiki's own front-end parser -/
+
+open KikiVerif.FrontParse KikiVerif.Generated in
+set_option maxRecDepth 1000000 in
+/-- **kernel-checked** on the tables checked into `parser.rs`: every item lies in the closure of its state's
+kernel, no transition leads to an empty state, and every nonterminal of the Kiki grammar is productive -/
+theorem C03_front_end :
+    Valid.tightB kikiG ParserRs.nonterminalNames.length C09.parserCert = true ∧ Valid.productiveB kikiG = true := by
+  decide +kernel
+
+open KikiVerif.FrontParse KikiVerif.Generated KikiVerif.Valid in
+/-- hence Kiki's own parser of `.kiki` files (the tables of `parser.rs`) reports the first offending token -/
+theorem C03_front_end_first_offending {P : Type} [Inhabited P] (w : List (Tok Nat P)) (fuel : Nat) (cf : Cfg Nat P)
+    (hrun : runCfg kikiG (mkAuto C09.parserCert) fuel ⟨[(mkAuto C09.parserCert).start], [], w⟩ = some (.err, cf)) :
+    ∃ pre, w = pre ++ cf.rest ∧
+      (∃ suf t, WF kikiG t (.n kikiG.start) ∧ t.yield = pre ++ suf) ∧
+      (∀ a r, cf.rest = a :: r → ∀ r' t, WF kikiG t (.n kikiG.start) → t.yield ≠ pre ++ a :: r') ∧
+      (cf.rest = [] → ∀ t, WF kikiG t (.n kikiG.start) → t.yield ≠ w) :=
+  C03_first_offending C09.C09_table_valid C03_front_end.1 C03_front_end.2 w fuel cf hrun
+
 end KikiVerif.C03
 
+#print axioms KikiVerif.C03.C03_front_end_first_offending
 #print axioms KikiVerif.C03.C03_viable
+#print axioms KikiVerif.C03.C03_not_early
+#print axioms KikiVerif.C03.C03_lookahead_only
+#print axioms KikiVerif.C03.C03_first_offending
+#print axioms KikiVerif.C03.C03_front_end
